@@ -9,6 +9,12 @@
    rational 2/5 and products/sums/divisions are exact (idealisation of
    binary64 rounding; see TRUSTED in harness/c06.py).
 
+   One instance over time (second half of the file): histories of run_vote and
+   every public mutator, the on_quorum_reached / on_quorum_failed callbacks
+   (absent / returning / raising) and run_vote calls that do not return (a
+   callback raises after the result was recorded; a voter's agent raises a
+   BaseException during collection), the statistics counters.
+
    [legacy = true] selects the behaviour before the two C06 `fix:` commits
    (23cf55f fractional count threshold, 722a2c0 Bayesian update); the
    property theorems are about [legacy = false]. *)
